@@ -42,7 +42,9 @@ def write_tree(sc, root, version):
         if crate == "__toml__":
             extra = ["-c", sc.write("%s/typeshare.toml" % root, text)]
         else:
-            sc.write("%s/%s/src/lib.rs" % (root, crate), text)
+            # NEST_OUT: the sources have a directory called like the destination (`src/out/` next to `-d out`): names are only names
+            sub = "out/" if NEST_OUT[0] and crate == sorted(c for c in version if c != "__toml__")[0] else ""
+            sc.write("%s/%s/src/%slib.rs" % (root, crate, sub), text)
     if OLD_SOURCES[0]:
         # the inputs carry old time stamps (a checkout, `cp -p`, an unpacked archive): what is written must not depend on them
         for d, _, fs in os.walk(sc.path(root), topdown=False):
@@ -53,6 +55,7 @@ def write_tree(sc, root, version):
 
 
 OLD_SOURCES = [False]
+NEST_OUT = [False]
 
 
 def outputs_of(dirpath):
@@ -78,6 +81,8 @@ def run(check):
     for h in range(nh):
         OLD_SOURCES[0] = (h % 3 == 1)
         check.count("sources-with-old-time-stamps" if OLD_SOURCES[0] else "sources-freshly-written")
+        NEST_OUT[0] = (h % 4 in (0, 3))
+        check.count("sources-with-a-directory-named-like-the-destination" if NEST_OUT[0] else "sources-plain-directories")
         lang = LANGS[h % 6]
         multi = (h // 6) % 2 == 0
         crates = rng.sample(["alpha", "beta-x", "gamma"], rng.randint(1, 3)) if multi else ["one"]
@@ -137,7 +142,11 @@ def run(check):
             for step, vi in enumerate(hist):
                 cfg_args = write_tree(sc, "ws", versions[vi])
                 time.sleep(0.02)
-                os.makedirs(sc.path("out"), exist_ok=True)
+                # the destination folder of the first run exists already (empty) or is made by typeshare itself
+                if not (multi and spell != "bare" and h % 2 == 0):
+                    os.makedirs(sc.path("out"), exist_ok=True)
+                elif step == 0:
+                    check.count("destination-folder-made-by-the-first-run")
                 cwd = sc.dir
                 if multi:
                     tgt = ["-d", sc.path("out")] if spell == "absolute" else ["-d", "out"] if spell == "relative" else ["-d", "./out"] if spell == "dot" else ["-d", "."]
